@@ -155,6 +155,7 @@ type signedTape struct {
 	dir      string
 	names    map[string]bool // every path the writer ever signed (codec suffix stripped)
 	sums     map[string]bool // sha of every content the writer ever signed
+	sumsX    map[string]bool // the same contents with their first byte overwritten by 'x' (what a legitimate one-byte write at offset 0 makes of them)
 	judged   int
 	w        *Worker
 }
@@ -179,6 +180,7 @@ func buildSignedTape(w *Worker, cfg Cfg, seed uint64) (*signedTape, error) {
 		{K: "rename", A: "/docs/secret.txt", B: "/docs/moved.txt"},
 		{K: "create", A: "/gone", Len: 40, Dist: "text", DSeed: seed + 2},
 		{K: "remove", A: "/gone"},
+		{K: "symlink", A: "/b.bin", B: "/docs/link"},
 	}
 	ops[4].NoWrite = true
 	for _, op := range ops {
@@ -223,10 +225,18 @@ func buildSignedTape(w *Worker, cfg Cfg, seed uint64) (*signedTape, error) {
 		if hdr != nil && rc.Inner != nil && isRegular(rc.Inner) {
 			st.contents[contentKey(hdr)] = data
 			st.sums[sum(data)] = true
+			if st.sumsX == nil {
+				st.sumsX = map[string]bool{sum([]byte("x")): true}
+			}
+			wx := append([]byte("x"), data[min(1, len(data)):]...)
+			st.sumsX[sum(wx)] = true
 		}
 		if rc.Inner != nil {
 			st.names[normRowName(stripCodecSuffix(rc.Inner.Name, rig.Cfg))] = true
 			st.names[normRowName(rc.Inner.Name)] = true
+			if rc.Inner.Linkname != "" {
+				st.names[normRowName(rc.Inner.Linkname)] = true
+			}
 		}
 	}
 	return st, nil
@@ -271,8 +281,10 @@ func (st *signedTape) judge(rig *Rig, img []byte, what string, res *Result, kind
 		_ = os.MkdirAll(tapeDir(fd), 0o777)
 		if err := os.WriteFile(tapeDir(fd)+"/drive.tar", img, 0o666); err == nil {
 			if frig, err := NewRig(fd, st.cfg); err == nil {
+				var dirsSeen, filesSeen []string
 				if err := frig.Init(); err == nil {
 					queue := []string{"/"}
+					dirsSeen, filesSeen = nil, nil
 					for len(queue) > 0 {
 						d := queue[0]
 						queue = queue[1:]
@@ -302,8 +314,10 @@ func (st *signedTape) judge(rig *Rig, img []byte, what string, res *Result, kind
 							}
 							if i.IsDir() {
 								queue = append(queue, pth)
+								dirsSeen = append(dirsSeen, pth)
 								continue
 							}
+							filesSeen = append(filesSeen, pth)
 							b, err := ReadAllFile(frig.FS, pth)
 							frig.LocksSettled()
 							if err == nil && !st.sums[sum(b)] {
@@ -316,6 +330,63 @@ func (st *signedTape) judge(rig *Rig, img []byte, what string, res *Result, kind
 					}
 				}
 				frig.LocksSettled()
+				// a recursive restore of the whole tree (`stfs operation restore` of a directory): if it reports success, every
+				// file it delivered holds signed bytes - the verdict on one member must not get lost among its siblings
+				for _, from := range dirsSeen {
+					type delivered struct {
+						path string
+						b    *bufCloser
+					}
+					var outs []delivered
+					stepBegin()
+					rerr := frig.ROps.Restore(
+						func(path string, mode iofs.FileMode) (io.WriteCloser, error) {
+							b := &bufCloser{}
+							outs = append(outs, delivered{path, b})
+							return b, nil
+						},
+						func(path string, mode iofs.FileMode) error { return nil },
+						from, "/out", false,
+					)
+					frig.LocksSettled()
+					res.count("recursive_restores_over_tampered_tape", 1)
+					res.count("files_delivered_by_recursive_restores", int64(len(outs)))
+					if rerr == nil {
+						for _, dl := range outs {
+							pth, b := dl.path, dl.b
+							if !st.sums[sum(b.Bytes())] {
+								res.violate("c08|"+kind+"|recursive-restore-unsigned-content", fmt.Sprintf("[%s] %s: Operations.Restore of the directory %q reported success and delivered %d bytes (sum %s) for %q that the writer never signed", st.cfg, what, from, len(b.Bytes()), sum(b.Bytes()), pth))
+								frig.Close()
+								return false
+							}
+						}
+					} else {
+						res.count("recursive_restores_rejected", 1)
+					}
+				}
+				// the legitimate writer works on over the altered tape: a one-byte write into each file. Whatever can be read
+				// afterwards is signed content, or signed content with that one byte - content that failed verification while it was
+				// loaded for the write must not come back under the writer's own signature
+				if strings.HasPrefix(what, "forgery") || st.judged%64 == 1 {
+					for _, pth := range filesSeen {
+						h, err := frig.FS.OpenFile(pth, os.O_RDWR, 0)
+						if err != nil {
+							continue
+						}
+						stepBegin()
+						_, werr := h.Write([]byte("x"))
+						cerr := h.Close()
+						frig.LocksSettled()
+						b, rerr := ReadAllFile(frig.FS, pth)
+						frig.LocksSettled()
+						res.count("writes_by_the_owner_over_tampered_tape", 1)
+						if rerr == nil && !st.sums[sum(b)] && !st.sumsX[sum(b)] {
+							res.violate("c08|"+kind+"|laundered-content", fmt.Sprintf("[%s] %s: after the key holder wrote one byte into %q (Write err=%v, Close err=%v) the file reads back %d bytes (sum %s) that are neither signed content nor signed content with that byte", st.cfg, what, pth, werr, cerr, len(b), sum(b)))
+							frig.Close()
+							return false
+						}
+					}
+				}
 				frig.Close()
 			}
 		}
@@ -347,6 +418,11 @@ func (st *signedTape) judge(rig *Rig, img []byte, what string, res *Result, kind
 			return false
 		}
 		if hdr.Typeflag != '0' && hdr.Typeflag != 0 {
+			// links, directories: nothing was signed as their content, so nothing may be delivered for them
+			if len(data) != 0 {
+				res.violate("c08|"+kind+"|fetch-content-nonregular", fmt.Sprintf("[%s] %s: Fetch at block %d returned %d bytes for the signed %q record %q, which has no signed content", st.cfg, what, blk, len(data), string(rune(hdr.Typeflag)), hdr.Name))
+				return false
+			}
 			continue
 		}
 		want, ok := st.contents[contentKey(hdr)]
@@ -725,6 +801,30 @@ func (st *signedTape) forgeries(w *Worker, rig *Rig, res *Result, c Case) int {
 			}
 		}
 	}
+	// validly signed records that carry no content (links, directories, delete / move / metadata records), untouched, but with a
+	// size and content given to them in the unsigned wrapper: nothing of that content may ever be delivered
+	for i, rc := range st.recs {
+		if rc.ContentLen != 0 || rc.Embedded == "" || st.cfg.Enc != "" {
+			continue
+		}
+		evil := bytes.Repeat([]byte("EVIL"), 100)
+		img := rewriteTape(st.img, st.recs, func(j int, outer *tar.Header, content []byte) ([]*tar.Header, [][]byte) {
+			if j == i {
+				h := *outer
+				h.Size = int64(len(evil))
+				return []*tar.Header{&h}, [][]byte{evil}
+			}
+			return []*tar.Header{outer}, [][]byte{content}
+		})
+		res.count("content_behind_contentless_record_forgeries", 1)
+		kindOf := "?"
+		if rc.Inner != nil {
+			kindOf = string(rune(rc.Inner.Typeflag))
+		}
+		if !try(fmt.Sprintf("signed content-less record %d (type %s) untouched but followed by 400 bytes of content declared in the wrapper", i, kindOf), img) {
+			return n
+		}
+	}
 	// unsigned records appended by a plain tar writer
 	for _, variant := range []string{"plain", "with STFS records", "embedded header only"} {
 		var buf bytes.Buffer
@@ -844,6 +944,6 @@ func (st *signedTape) forgeAs(tgt TapeRec, imp impersonation) (string, []byte, b
 func init() {
 	register(&Engine{Name: "tamper", Props: []string{"C08"}, Cases: tamperCases, Run: tamperRun})
 	propMeta["C08"] = PropMeta{Level: "exploration",
-		Rule:        "per tape (8 calls: mkdir, files with content, chmod, empty file, rename, remove) written under a signature format x encryption x compression: (flips) EVERY byte position of the tape is altered with each mask in {0x01,(0x80,)0xFF}, sharded over the cases; (forgeries) edited embedded header in place and appended, each with kept / removed / empty / non-base64 / base64-garbage / re-encoded / truncated / other record's signature, swapped signatures, replaced content with recomputed size, content of another signed record, records signed by a second key pair appended and prepended, records signed by that second key whose header and content signatures are relabelled to name the recipient's key as issuer (pgp: primary key, each subkey, no issuer; minisign: the recipient's key id), validly signed records left untouched but carrying additional unsigned PAX records on their (unencrypted) wrapper header - STFS.ReplacesName, STFS.Action, STFS.ReplacesContent/UncompressedSize, path/size - in place and replayed at the end, unsigned records by a plain tar writer; for every altered tape the real recovery.Index, recovery.Query and recovery.Fetch (at every pristine record position and every position the resulting index points to) run with the real verifier: every header they accept must equal, field for field incl. PAX records, a header the legitimate writer signed, and every successful Fetch must return exactly the bytes signed under that header; non-trivial = at least 100 alterations (flips) / 8 forgeries; distinct = distinct case",
+		Rule:        "per tape (8 calls: mkdir, files with content, chmod, empty file, rename, remove) written under a signature format x encryption x compression: (flips) EVERY byte position of the tape is altered with each mask in {0x01,(0x80,)0xFF}, sharded over the cases; (forgeries) edited embedded header in place and appended, each with kept / removed / empty / non-base64 / base64-garbage / re-encoded / truncated / other record's signature, swapped signatures, replaced content with recomputed size, content of another signed record, records signed by a second key pair appended and prepended, records signed by that second key whose header and content signatures are relabelled to name the recipient's key as issuer (pgp: primary key, each subkey, no issuer; minisign: the recipient's key id), validly signed records left untouched but carrying additional unsigned PAX records on their (unencrypted) wrapper header - STFS.ReplacesName, STFS.Action, STFS.ReplacesContent/UncompressedSize, path/size - in place and replayed at the end, unsigned records by a plain tar writer; for every altered tape the real recovery.Index, recovery.Query and recovery.Fetch (at every pristine record position and every position the resulting index points to) run with the real verifier: every header they accept must equal, field for field incl. PAX records, a header the legitimate writer signed, and every successful Fetch must return exactly the bytes signed under that header; non-trivial = at least 100 alterations (flips) / 8 forgeries; distinct = distinct case; forgeries also give content to signed records that have none (links, directories, metadata records); over every altered tape each directory is restored recursively (a restore that reports success delivered only signed bytes) and the key holder writes one byte into each file (what reads back is signed content, with or without that byte)",
 		Assumptions: []string{"replay, reordering and truncation of validly signed records are outside the statement and are not flagged", "with encryption on, forgeries are encrypted to the recipient's public key (which an attacker has)"}}
 }
